@@ -12,6 +12,7 @@ package main
 
 import (
 	"bytes"
+	"encoding/json"
 	"flag"
 	"fmt"
 	"os"
@@ -66,6 +67,7 @@ func main() {
 	countOnly := flag.Bool("count", false, "print the enumeration sizes and exit")
 	only := flag.Int64("only", -1, "evaluate only the tree with this index (debugging), verbose")
 	treeFlag := flag.String("show", "", "with -only: also print the observations of every program")
+	treeText := flag.String("tree", "", `evaluate the tree given in text form, e.g. [mount("/:t"){GET "/x" reply}], and print every differing request`)
 	r := core.Start("C04")
 	pol := quickPolicy()
 	if !r.Quick() {
@@ -77,6 +79,10 @@ func main() {
 			fmt.Println(c)
 		}
 		fmt.Println("total trees:", total)
+		return
+	}
+	if *treeText != "" || r.Replay != "" {
+		replay(r, *treeText)
 		return
 	}
 	if *only >= 0 {
@@ -101,6 +107,10 @@ func main() {
 	if r.P.Counters["trees"] != total && len(r.P.Caps) == 0 {
 		core.Fatal("enumeration mismatch: workers evaluated %d trees, enumeration has %d", r.P.Counters["trees"], total)
 	}
+	// anti-vacuity: the mechanisms under test were exercised
+	if len(r.P.Caps) == 0 && (r.P.Counters["mount_evaluations_with_inner_handler_run"] == 0 || r.P.Counters["map_order_deviations_run"] == 0 || r.P.Counters["nontrivial"] == 0) {
+		core.Fatal("vacuous exploration: no mounted handler ran or no deviating map order was explored: %v", r.P.Counters)
+	}
 	var classText []string
 	for _, c := range classes {
 		classText = append(classText, c.String())
@@ -110,6 +120,7 @@ func main() {
 		dev = "<= 1 non-default pick under every configuration, <= 2 under the default configuration (at most 40 pairs per tree, nearest choice points first)"
 	}
 	unspec := r.P.Counters["unspecified_skipped"]
+	spell := spellingExamples()
 	ev := core.Evidence{
 		Level:      "exploration",
 		Exhaustive: true,
@@ -117,20 +128,24 @@ func main() {
 			"evaluations":         r.P.Counters["evaluations"],
 			"distinct_nontrivial": r.P.Counters["nontrivial"],
 			"unspecified_skipped": unspec,
+			"unspecified_classes": map[string]any{
+				"what":     "Route().Path seen by a handler is spelled differently although trace, Params, status, Allow and body agree (counters 'route-path-spelling <clause> <class>'); not part of the answer to a request, hence not judged",
+				"examples": spell,
+			},
 			"rule": "one evaluation = one (program tree, routing configuration) pair: the tree is built as P (mounts as written; also with the sub-app mounted first and populated afterwards), P' (every mount replaced by a group with the mount prefix at the same position), P'' (every group prefix folded into the full path) and P''' (Route() chains), every request derived from the tree (each full pattern instantiated with v/w, with and without trailing slash, other letter case, %78 for x, below-prefix and glued-suffix paths for middleware, every container prefix with and without slash, '/' and one foreign path) x {GET, POST} is sent to each program and trace+Params+status+Allow+body are compared P~P', P'~P'', P'''~P''; P is also rebuilt under every deviating appList map iteration order (" + dev + ") and compared with the default order. Trees: every skeleton (<= 3 items per level, depth and size bounds below, >= 1 container) x every labelling with the alphabets of its size class; all (tree, configuration) pairs are distinct by construction. An evaluation is non-trivial when, in P', at least one handler registered inside a container ran (the prefix mechanism decided the answer); counted in the loop.",
 			"bounds": map[string]any{
-				"depth":                   pol.depth,
-				"max_items_per_level":     3,
-				"max_containers":          pol.cMax,
-				"max_leaves":              pol.nMax,
-				"size_classes":            classText,
-				"trees":                   total,
-				"configs":                 len(cfgs),
-				"methods":                 methods,
-				"route_kinds":             kindNames,
-				"patterns":                patRank,
-				"prefixes":                prefixRank,
-				"map_order_deviations":    dev,
+				"depth":                fmt.Sprintf("%d (quick tier: depth 2 plus the two-level container letters mount-from-group group(a){mount(b){..}} and mount-in-mount mount(a){mount(b){..}})", pol.depth),
+				"max_items_per_level":  3,
+				"max_containers":       pol.cMax,
+				"max_leaves":           pol.nMax,
+				"size_classes":         classText,
+				"trees":                total,
+				"configs":              len(cfgs),
+				"methods":              methods,
+				"route_kinds":          kindNames,
+				"patterns":             patRank,
+				"prefixes":             prefixRank,
+				"map_order_deviations": dev,
 			},
 		},
 		Assumptions: []string{
@@ -139,7 +154,8 @@ func main() {
 			"reference composition of prefix and path: trailing slashes of the prefix dropped, empty path leaves the prefix unchanged ('/api' + '/v1' = '/api/v1')",
 			"Route().Path spelling seen by handlers is compared only when everything else is equal and differences are counted as unspecified (counters route-path-spelling ...), the statement speaks about answers to requests",
 			"Register.All (Route(prefix).All) is taken as the middleware registration it is documented to be, i.e. the Route()-chain counterpart of Use",
-			"map iteration inside mount.go follows verifrt.MapOrder (keys snapshot before the loop); orders are explored up to the stated number of deviations from the sorted default",
+			"map iteration inside mount.go (mount, Group.mount, appendSubAppLists, processSubAppsRoutes) follows verifrt.MapOrder (keys snapshot before the loop); orders are explored up to the stated number of deviations from the sorted default; generateAppListKeys' range is not owned (its result is sorted and only feeds Render's view lookup)",
+			"a violation is attributed to the smallest sub-program that still shows the same kind of difference (greedy minimisation: delete, hoist, mount->group, simpler prefix/leaf); counts are per (tree, configuration, clause, kind of difference)",
 		},
 		MinOutcomes: 4,
 	}
@@ -284,7 +300,7 @@ func (w *worker) evalTree(idx int64, t *tree) {
 		w.e.runAll(t, ti, c, progRoute, nil, &w.oR)
 		w.compare(clRoute, ci, &w.oR, &w.oF)
 	}
-	if idx%4099 == 0 && len(w.l.P.Samples) < 3 {
+	if w.r.Worker <= 0 && idx%40000 == 1600 && len(w.l.P.Samples) < 3 {
 		m, p := reqAt(ti, w.oG.n()-1)
 		w.l.Sample(map[string]any{"tree": t.String(), "config": cfgs[len(cfgs)-1].String(), "requests": len(ti.paths) * len(methods),
 			"paths": ti.paths, "last_request": m + " " + p, "observation_P'": string(w.oG.get(w.oG.n() - 1))})
@@ -586,7 +602,7 @@ func (w *worker) minimise(t *tree, c rcfg, clause, kind string) *sigInfo {
 		"failing_configs": len(fail),
 		"request":         hit.req,
 		"compared":        pair,
-		"observation":     "<handler id>:<Params(id)>,<Params(t)>,<Params(*)>; ... |status|Allow|body",
+		"observation":     "<handler id>:<Params(id)>,<Params(t)>,<Params(*)>; ... |status|Allow|body  (observed = first program of 'compared', expected = second; the clause requires them to be equal)",
 	}
 	if hit.plan != nil {
 		var ks []int
@@ -603,6 +619,76 @@ func (w *worker) minimise(t *tree, c rcfg, clause, kind string) *sigInfo {
 	si := &sigInfo{sig: strings.Join(parts, " "), what: "request answered differently: " + pair, cs: cs, obs: hit.impl, exp: hit.ref}
 	w.bySig[mkey] = si
 	return si
+}
+
+// replay evaluates one tree (from -tree or from the minimal_tree of a replay file) under every
+// configuration and clause and prints every differing request; exit 1 when a clause is violated.
+func replay(r *core.Run, text string) {
+	if text == "" {
+		b, err := os.ReadFile(r.Replay)
+		if err != nil {
+			core.Fatal("replay: %v", err)
+		}
+		var v struct {
+			Case struct {
+				MinimalTree string `json:"minimal_tree"`
+			} `json:"case"`
+		}
+		if err := json.Unmarshal(b, &v); err != nil || v.Case.MinimalTree == "" {
+			core.Fatal("replay: no minimal_tree in %s", r.Replay)
+		}
+		text = v.Case.MinimalTree
+	}
+	t, err := parseTree(text)
+	if err != nil {
+		core.Fatal("%v", err)
+	}
+	w := newWorker(r)
+	w.allDev = true
+	fmt.Println("tree:", t)
+	fmt.Print(t.goProgram())
+	bad := 0
+	for _, c := range cfgs {
+		for _, clause := range []string{clMount, clMountLate, clMapOrder, clFlat, clRoute} {
+			w.evalClause(t, c, clause, func(h diffHit, kind string) bool {
+				bad++
+				fmt.Printf("%s | %s | %s %s | %s\n    first : %s\n    second: %s\n", c, clause, kind, h.detail, h.req, h.impl, h.ref)
+				return false
+			})
+		}
+	}
+	if bad > 0 {
+		fmt.Printf("VIOLATION reproduced: %d differing (configuration, clause, request) triples\n", bad)
+		os.Exit(1)
+	}
+	fmt.Println("no difference")
+	os.Exit(0)
+}
+
+// spellingExamples illustrates the unspecified Route().Path spelling classes on two fixed programs.
+func spellingExamples() []map[string]string {
+	e := newExec()
+	var out []map[string]string
+	for _, text := range []string{`[mount("/API"){GET "/x" reply}]`, `[mount("/api"){USE "" reply}]`} {
+		t, err := parseTree(text)
+		if err != nil {
+			continue
+		}
+		ti := analyse(t)
+		var a, b obsSet
+		e.runAll(t, ti, cfgs[0], progMount, nil, &a)
+		e.runAll(t, ti, cfgs[0], progGroup, nil, &b)
+		for i := 0; i < a.n(); i++ {
+			if bytes.Equal(a.get(i), b.get(i)) && !bytes.Equal(a.getRP(i), b.getRP(i)) {
+				m, p := reqAt(ti, i)
+				out = append(out, map[string]string{"tree": text, "config": cfgs[0].String(), "request": m + " " + p,
+					"Route().Path in P (mount)": string(a.getRP(i)), "Route().Path in P' (group)": string(b.getRP(i)),
+					"class": spellingClass(string(a.getRP(i)), string(b.getRP(i)))})
+				break
+			}
+		}
+	}
+	return out
 }
 
 // debugOne evaluates one tree verbosely.
